@@ -143,6 +143,15 @@ def check(sc, obs):
         if sel is not None and sel not in offers:
             viol.append({"class": "alpn_not_offered", "key": {"where": "inner", "selected": _cls(sel)},
                          "msg": f"flow {i}: selected {sel!r} which the client did not offer ({offers})"})
+        if not rec["hs"] and "BAD_EXTENSION" in str(rec.get("why")).upper().replace(" ", "_"):
+            # RFC 7301 3.1: the ServerHello ALPN extension must carry one of the offered protocols; a TLS
+            # client aborts with this alert/reason when the server answers with something else
+            probes["client_stack_rejected_extension"] += 1
+            viol.append({"class": "alpn_not_offered",
+                         "key": {"where": "inner", "selected": "rejected_by_client_tls_stack"},
+                         "msg": f"flow {i}: the client's TLS stack aborted the handshake with {rec.get('why')} — the "
+                                f"server answered with a protocol outside the offer list {offers} (upstream "
+                                f"{up if known else 'unknown'})"})
         if known and sel is not None and sel != up:
             viol.append({"class": "alpn_differs_from_known_upstream",
                          "key": {"upstream_offered_by_client": up in offers, "upstream_negotiated_none": up is None,
